@@ -76,13 +76,23 @@ pub enum CLog {
 }
 
 fn clog_eq(a: &[CLog], b: &[CLog]) -> bool {
-    let te = |x: &Option<TV>, y: &Option<TV>| match (x, y) {
-        (None, None) => true,
-        (Some(a), Some(b)) => a.sem_eq(b),
+    let te = |x: &Option<TV>, y: &Option<TV>| meta_eq(x, y);
+    // create/update are counted exactly ("exactly once when due and never otherwise"); the deciding callbacks
+    // (strategy, migration) may be consulted again with the same arguments: consecutive repeats are collapsed
+    let same_decider = |x: &CLog, y: &CLog| match (x, y) {
+        (CLog::Strategy { seen: s1, path: p1 }, CLog::Strategy { seen: s2, path: p2 }) => p1 == p2 && te(s1, s2),
+        (CLog::Migrate { generic: g1 }, CLog::Migrate { generic: g2 }) => te(g1, g2),
         _ => false,
     };
+    let mut a2: Vec<&CLog> = vec![];
+    for x in a {
+        if a2.last().map(|l| same_decider(l, x)) != Some(true) {
+            a2.push(x);
+        }
+    }
+    let a = a2;
     a.len() == b.len()
-        && a.iter().zip(b).all(|(x, y)| match (x, y) {
+        && a.iter().zip(b).all(|(x, y)| match (*x, y) {
             (CLog::Create { listing: l1, path: p1 }, CLog::Create { listing: l2, path: p2 }) => l1 == l2 && p1 == p2,
             (CLog::Strategy { seen: s1, path: p1 }, CLog::Strategy { seen: s2, path: p2 }) => p1 == p2 && te(s1, s2),
             (CLog::Update { seen: s1 }, CLog::Update { seen: s2 }) => te(s1, s2),
@@ -348,6 +358,7 @@ pub fn run_history(scratch: &Path, h: &[Op]) -> HistOutcome {
                         MType::V1 => run_handle::<V1>(&bc, &ln, script, &side, log.clone()),
                         MType::V2 => run_handle::<V2>(&bc, &ln, script, &side, log.clone()),
                     };
+                    let own_before = model.layer(lname).clone();
                     let (want, want_log) = model_handle(model.layer(lname), &lpath, *m, script);
                     let got_log = log.borrow().clone();
                     // callbacks: which, exactly once, in order, with the right arguments
@@ -375,7 +386,10 @@ pub fn run_history(scratch: &Path, h: &[Op]) -> HistOutcome {
                             return Err(ctxmsg(Fail::new(sig, e.clone())));
                         }
                     }
-                    // disk == model
+                    // disk == model (after a callback Err: the model's guess, the state before the call, or no layer at all)
+                    if matches!((&got, &want), (Err(_), Err(()))) {
+                        settle_after_error(&bc.layers_dir, &mut model, &NAMES, lname, vec![own_before.clone(), MLayer::default()]);
+                    }
                     compare_disk("C02", &bc.layers_dir, &model, &NAMES).map_err(&ctxmsg)?;
                     let others_after = others_snapshot(&bc.layers_dir, lname);
                     let d = fsutil::diff(&others_before, &others_after, 4);
@@ -387,13 +401,9 @@ pub fn run_history(scratch: &Path, h: &[Op]) -> HistOutcome {
                         let l = model.layers.get(lname).unwrap();
                         ensure!(ret.name == lname && ret.path == lpath, "C02:returned-name-or-path", "step {step}: returned {:?} {:?}", ret.name, ret.path);
                         let mt = l.toml.as_ref().unwrap();
-                        ensure!(ret.types == mt.types, "C02:returned-types-differ", "step {step}: returned types {:?}, on disk {:?}", ret.types, mt.types);
+                        ensure!(types_eq(&ret.types, &mt.types), "C02:returned-types-differ", "step {step}: returned types {:?}, on disk {:?}", ret.types, mt.types);
                         let want_seen = seen_as(*m, &mt.metadata).unwrap_or(None);
-                        let same = match (&ret.metadata, &want_seen) {
-                            (None, None) => true,
-                            (Some(a), Some(b)) => a.sem_eq(b),
-                            _ => false,
-                        };
+                        let same = meta_eq(&ret.metadata, &want_seen);
                         ensure!(same, "C02:returned-metadata-differs", "step {step}: returned metadata {:?}, on disk {:?}", ret.metadata, want_seen);
                         let implicit = implicit_of(l, &lpath);
                         let mut queries = vec![Sc::All, Sc::Build, Sc::Launch, Sc::Process("unknown-proc".into())];
@@ -590,7 +600,7 @@ fn reduced_alphabet() -> Vec<Op> {
 }
 
 pub fn run(ctx: &Ctx) {
-    ctx.set_rule("bounded-exhaustive: every history [h], [h, h2], [h, restore, h2] over a reduced alphabet of 72 scripted handle_layer calls on one layer (metadata type V1/V2 x strategy keep/update/recreate/error x migrate recreate/replace/error x create+update results rich/plain/error) = 10 440 histories; sampled: histories of handle_layer calls over 3 layer names interleaved with simulated lifecycle restores; the Layer implementation is fully scripted per call: types (8 flag combinations), metadata type {generic, V1, V2} (alternating types reach the migration path after restores), existing_layer_strategy in {keep, update, recreate, error}, migrate_incompatible_metadata in {recreate, replace with a valid value, error}, create/update returning metadata, env None | the env of the LayerData handed to update (the trait's default update) | Some(entries over all/build/launch/process with byte-string names), 0..3 exec.d programs, 0..3 SBOMs, plain files written into the layer path (also bin/ lib/ include/ pkgconfig/), or an error. Oracle after EVERY call: callback log (which callbacks, once, in order, with which metadata/path, create on an empty directory) == model; Err iff a callback returned Err; disk == model (files bytewise via an independent env renderer, content metadata via Python tomllib, SBOMs); other layers byte-identical; returned LayerData (name, path, types, metadata, env applied for all scopes incl. per-process and unknown process to 3 starting envs, incl. implicit layer paths) == disk. Non-trivial: >= 2 handle_layer calls on the same name separated by a restore, with a layer result that carried a per-process env entry, an SBOM or an exec.d program; distinct = hash of the operation list.");
+    ctx.set_rule("bounded-exhaustive: every history [h], [h, h2], [h, restore, h2] over a reduced alphabet of 72 scripted handle_layer calls on one layer (metadata type V1/V2 x strategy keep/update/recreate/error x migrate recreate/replace/error x create+update results rich/plain/error) = 10 440 histories; sampled: histories of handle_layer calls over 3 layer names interleaved with simulated lifecycle restores; the Layer implementation is fully scripted per call: types (8 flag combinations), metadata type {generic, V1, V2} (alternating types reach the migration path after restores), existing_layer_strategy in {keep, update, recreate, error}, migrate_incompatible_metadata in {recreate, replace with a valid value, error}, create/update returning metadata, env None | the env of the LayerData handed to update (the trait's default update) | Some(entries over all/build/launch/process with byte-string names), 0..3 exec.d programs, 0..3 SBOMs, plain files written into the layer path (also bin/ lib/ include/ pkgconfig/), or an error. Oracle after EVERY call: callback log (create/update exactly once when due and never otherwise; strategy/migration with the right arguments, consecutive identical repeats collapsed; create on an empty directory) == model; Err iff a callback returned Err (the layer may then be as before, as far as the model got, or absent); disk == model (files bytewise via an independent env renderer, content metadata via Python tomllib, SBOMs); other layers byte-identical; returned LayerData (name, path, types, metadata, env applied for all scopes incl. per-process and unknown process to 3 starting envs, incl. implicit layer paths) == disk. Non-trivial: >= 2 handle_layer calls on the same name separated by a restore, with a layer result that carried a per-process env entry, an SBOM or an exec.d program; distinct = hash of the operation list.");
     ctx.set_exhaustive(true);
     ctx.extra("exhaustive_subspace", json!("histories of length <= 2 (+ a restore in between) over the reduced alphabet; longer histories are sampled"));
     ctx.assume("callbacks obey the trait's documented contract (write only below layer_path, types() pure); the lifecycle is the abstraction of C01's quantifier");
